@@ -171,6 +171,10 @@ func parseUnion(
 ) (string, error) {
 	parsedString := []string{}
 	children := prioritizeDirectAssignment(relationDefinition.GetUnion().GetChild())
+	if len(children) == 0 {
+		// an operator without operands has no DSL form
+		return "", errors.UnsupportedDSLNestingError(typeName, relationName)
+	}
 
 	for index := 0; index < len(children); index++ {
 		parsedSubString, err := parseSubRelation(typeName, relationName, children[index], typeRestrictions, validator)
@@ -193,6 +197,10 @@ func parseIntersection(
 ) (string, error) {
 	parsedString := []string{}
 	children := prioritizeDirectAssignment(relationDefinition.GetIntersection().GetChild())
+	if len(children) == 0 {
+		// an operator without operands has no DSL form
+		return "", errors.UnsupportedDSLNestingError(typeName, relationName)
+	}
 
 	for index := 0; index < len(children); index++ {
 		parsedSubString, err := parseSubRelation(typeName, relationName, children[index], typeRestrictions, validator)
